@@ -33,10 +33,17 @@ type C02Plan struct {
 	Sample  []float64 `json:"sample,omitempty"`
 	MaxCuts int       `json:"max_cuts,omitempty"`
 	Handler string    `json:"handler,omitempty"` // "ref" | "dir"
+	// DeferA/DeferB: MIDs the station answers "later" (=) in the faulty sessions;
+	// in the fault-free sessions that follow it accepts them.
+	DeferA []string `json:"defer_a,omitempty"`
+	DeferB []string `json:"defer_b,omitempty"`
+	// Reuse: the DirHandler objects live across sessions (long-running program)
+	// instead of being re-created for each session (restart).
+	Reuse bool `json:"reuse,omitempty"`
 }
 
 type C02Fault struct {
-	Kind   string `json:"kind"` // cut | storage
+	Kind   string `json:"kind"` // cut | storage | answer (inbox unreadable while the n-th proposal is answered)
 	Dir    string `json:"dir,omitempty"`
 	Off    int    `json:"off,omitempty"`
 	Silent bool   `json:"silent,omitempty"`
@@ -47,6 +54,9 @@ type C02Fault struct {
 func (f C02Fault) String() string {
 	if f.Kind == "storage" {
 		return fmt.Sprintf("storage error at %s on inbound message #%d", f.At, f.Nth)
+	}
+	if f.Kind == "answer" {
+		return fmt.Sprintf("inbox of %s unreadable while proposal #%d is answered", f.At, f.Nth)
 	}
 	return fmt.Sprintf("cut %s after %d bytes (silent=%v)", f.Dir, f.Off, f.Silent)
 }
@@ -89,7 +99,20 @@ func genC02(tier string, r *core.Rand) C02Plan {
 		handler = "dir"
 		a.Batched, b.Batched = false, false
 	}
-	p := C02Plan{Handler: handler, A: a, B: b, Target: SessionPlan{AMaster: r.Bool(), Link: link()}, Clean: SessionPlan{AMaster: r.Bool(), Link: link()}}
+	var deferA, deferB []string
+	if r.Chance(0.3) {
+		for _, m := range b.Msgs {
+			if r.Chance(0.4) {
+				deferA = append(deferA, m.MID) // A defers some of what B offers
+			}
+		}
+		for _, m := range a.Msgs {
+			if r.Chance(0.4) {
+				deferB = append(deferB, m.MID)
+			}
+		}
+	}
+	p := C02Plan{Handler: handler, DeferA: deferA, DeferB: deferB, Reuse: r.Bool(), A: a, B: b, Target: SessionPlan{AMaster: r.Bool(), Link: link()}, Clean: SessionPlan{AMaster: r.Bool(), Link: link()}}
 	for i, n := 0, r.Pick(5, 3, 2); i < n; i++ {
 		sp := SessionPlan{AMaster: r.Bool(), Link: link()}
 		if r.Chance(0.75) {
@@ -126,6 +149,7 @@ type c02Run struct {
 	diskFaults   int
 	nAB, nBA     int // bytes delivered in the target session (pilot)
 	inbA, inbB   int // ProcessInbound calls in the target session (pilot)
+	ansA, ansB   int // proposals answered in the target session (pilot, dir handler)
 	boundaries   map[string][]int
 	cleanNeeded  int
 	targetFailed bool
@@ -164,6 +188,7 @@ func execChain(sim *core.Sim, prop string, p C02Plan, fault *C02Fault, run *c02R
 	if disk != nil {
 		for _, st := range []*stationRT{a, b} {
 			st.dir = newDirBox(st.name, hist, disk)
+			st.dir.reuse = p.Reuse
 			st.dir.short = len(st.order)*37 + 11
 			for _, mid := range st.order {
 				st.dir.Queue(mid, st.queued[mid])
@@ -198,6 +223,7 @@ func execChain(sim *core.Sim, prop string, p C02Plan, fault *C02Fault, run *c02R
 			}
 		}
 	}
+	answerFault := fault != nil && fault.Kind == "answer"
 	chain = append(chain, sess{t, fault != nil, "target"})
 
 	judge := func(s sess, ra, rb *sessResult, link *pipe.Link, ok bool, started time.Duration) (completed bool) {
@@ -218,8 +244,19 @@ func execChain(sim *core.Sim, prop string, p C02Plan, fault *C02Fault, run *c02R
 
 	runOne := func(s sess) (bool, *pipe.Link) {
 		started := sim.Now()
+		arm := func() {
+			if s.label == "target" && answerFault {
+				st := b
+				if fault.At == "A" {
+					st = a
+				}
+				if st.dir != nil {
+					st.dir.failAnswerAt = fault.Nth
+				}
+			}
+		}
 		// a faulty session may block until the fault fires; afterwards 5 minutes must do.
-		ra, rb, link, ok := runSessionFaulty(sim, a, b, s.plan)
+		ra, rb, link, ok := runSessionFaulty(sim, a, b, s.plan, arm)
 		completed := judge(s, ra, rb, link, ok, started)
 		if s.label == "target" && run != nil {
 			run.nAB, run.nBA = link.Delivered()
@@ -229,9 +266,13 @@ func execChain(sim *core.Sim, prop string, p C02Plan, fault *C02Fault, run *c02R
 	}
 
 	completedClean := false
+	a.setDefers(p.DeferA)
+	b.setDefers(p.DeferB)
 	for _, s := range chain {
 		runOne(s)
 	}
+	a.setDefers(nil)
+	b.setDefers(nil)
 	if run != nil {
 		if disk != nil {
 			run.diskFaults = a.dir.fired + b.dir.fired
@@ -240,6 +281,13 @@ func execChain(sim *core.Sim, prop string, p C02Plan, fault *C02Fault, run *c02R
 		for _, e := range hist.Snapshot() {
 			if e.Kind == "inbound-ok" && e.Session == len(chain) {
 				run.delivered++
+			}
+			if e.Kind == "answer" && e.Session == len(chain) {
+				if e.Station == "A" {
+					run.ansA++
+				} else {
+					run.ansB++
+				}
 			}
 			if e.Kind == "inbound-begin" && e.Session == len(chain) {
 				if e.Station == "A" {
@@ -264,15 +312,18 @@ func execChain(sim *core.Sim, prop string, p C02Plan, fault *C02Fault, run *c02R
 			break
 		}
 	}
-	checkC02History(sim, prop, detail, a, b, hist.Snapshot(), completedClean)
+	checkC02History(sim, prop, detail, a, b, hist.Snapshot(), completedClean, answerFault)
 }
 
 // runSessionFaulty runs one session. "Bounded time": once the link has been cut
 // or the storage error has been returned, both calls must return within 5
 // simulated minutes; before that there is no bound (slow links are legal).
-func runSessionFaulty(sim *core.Sim, a, b *stationRT, sp SessionPlan) (ra, rb *sessResult, link *pipe.Link, ok bool) {
+func runSessionFaulty(sim *core.Sim, a, b *stationRT, sp SessionPlan, arm func()) (ra, rb *sessResult, link *pipe.Link, ok bool) {
 	a.nextSession(sp.FailInboundA)
 	b.nextSession(sp.FailInboundB)
+	if arm != nil {
+		arm()
+	}
 	link = pipe.New(sim, sp.Link)
 	ra, rb = &sessResult{}, &sessResult{}
 	sa := a.session(b, sp.AMaster)
@@ -299,7 +350,13 @@ func runSessionFaulty(sim *core.Sim, a, b *stationRT, sp SessionPlan) (ra, rb *s
 }
 
 // checkC02History applies clauses (b), (c), (d) over the whole chain.
-func checkC02History(sim *core.Sim, prop, detail string, a, b *stationRT, ev []mbox.Event, completedClean bool) {
+//
+// restoreAllowed: the injected fault made the inbox unreadable while a proposal
+// was answered. A mailbox that cannot tell whether it already has a message and
+// therefore takes it again (same bytes, same file) errs on the safe side; that
+// is outside what C02 states (its faults are link failures and failed stores),
+// so "stored again" is not judged in those chains. Everything else is.
+func checkC02History(sim *core.Sim, prop, detail string, a, b *stationRT, ev []mbox.Event, completedClean, restoreAllowed bool) {
 	type st struct {
 		stored   int
 		storedAt uint64
@@ -340,7 +397,7 @@ func checkC02History(sim *core.Sim, prop, detail string, a, b *stationRT, ev []m
 		}
 		for _, mid := range x.order {
 			s := state[mid]
-			if s.stored > 1 || (s.stored > 0 && s.seeded) {
+			if (s.stored > 1 || (s.stored > 0 && s.seeded)) && !restoreAllowed {
 				sim.Violate(prop, "exactly-once", "delivered-twice/"+detail, "%s->%s %s was stored %d times", x.name, y.name, mid, s.stored)
 			}
 			if sent[mid] > 1 {
@@ -466,6 +523,14 @@ func execC02(t *testing.T, prop string, raw json.RawMessage, trace bool) core.Ou
 	}
 	for i := 1; i <= pilot.inbB; i++ {
 		faults = append(faults, C02Fault{Kind: "storage", At: "B", Nth: i})
+	}
+	if p.Handler == "dir" {
+		for i := 1; i <= pilot.ansA; i++ {
+			faults = append(faults, C02Fault{Kind: "answer", At: "A", Nth: i})
+		}
+		for i := 1; i <= pilot.ansB; i++ {
+			faults = append(faults, C02Fault{Kind: "answer", At: "B", Nth: i})
+		}
 	}
 	probes := map[string]int{}
 	for _, f := range faults {
